@@ -6,7 +6,7 @@ From Coq Require Floats.PrimFloat.
 From OV.base Require Import Num.
 From OV.gen Require Import Gen_EquationSolver Gen_EquationSolverSubspace.
 From OV.model Require Import M_C06_Vec M_C06_CG M_C06_Treigen.
-From OV.proofs Require Import L_C06_Vec L_C06_CG L_C06_Dogleg L_C06_Treigen.
+From OV.proofs Require Import L_C06_Vec L_C06_CG L_C06_CGpc L_C06_Dogleg L_C06_Treigen L_C06_TreigenFull.
 Import ListNotations.
 Local Open Scope R_scope.
 
@@ -49,14 +49,47 @@ Theorem C06_cg_step_properties : forall n (Hf Pf : list R -> list R) pcip D cg_t
   (pcip = false -> cg_z res ⋅ cg_z res <= D * D /\
                    (is_on_boundary (cg_tag res) = true -> cg_z res ⋅ cg_z res = D * D)).
 Proof. exact cg_solve_correct. Qed.
-(* NOT PROVED: (a) radius clause with use_preconditioned_inner_product_for_cg=True, i.e. that the Gould recurrences for
-   zz, zd, dd equal the M-inner products of the iterates when precond = M^-1: needs the full conjugacy induction of CG
-   (r_k orthogonal to all earlier directions), not done in the budget; the recurrences themselves are the generated kernels
-   and the preconditioned mode is covered by the correspondence and by the L2 radius predicate of the harness.
-   (b) the Cauchy clause when the solver returns before iterating (|g|^2 < cgTolSquared, 0 iterations, zero step tagged
+(* use_preconditioned_inner_product_for_cg=True with precond = M^-1, M symmetric positive definite (the CG conjugacy
+   induction: residuals orthogonal to ALL earlier directions, directions H-conjugate): every returned step lies inside
+   the trust region measured in the M-norm, and on its boundary when tagged boundary / negative curvature. *)
+Theorem C06_cg_radius_preconditioned : forall n (Hf Pf Mf : list R -> list R) D cg_tol cg_ratio (x g : list R),
+  (forall v, len n v -> len n (Hf v)) -> (forall v, len n v -> len n (Pf v)) ->
+  (forall a b, len n a -> len n b -> a ⋅ Hf b = Hf a ⋅ b) ->
+  (forall a b, len n a -> len n b -> a ⋅ Mf b = Mf a ⋅ b) ->
+  (forall v, len n v -> Mf (Pf v) = v) ->
+  (forall v, len n v -> 0 < v ⋅ v -> 0 < v ⋅ Mf v) ->
+  cg_tol <> 0 -> len n x -> len n g ->
+  forall max_cg_iters_minus_1,
+  let res := @solve_trust_region_minimization R NumR Hf Pf true D cg_tol cg_ratio (S max_cg_iters_minus_1) x g in
+  len n (cg_z res) /\ cg_z res ⋅ Mf (cg_z res) <= D * D /\
+  (is_on_boundary (cg_tag res) = true -> cg_z res ⋅ Mf (cg_z res) = D * D).
+Proof. exact cg_solve_radius_pc. Qed.
+(* ... because at EVERY pass k the loop reaches, the scalars zz, zd, dd it tracks through update_step_length_squared and
+   cg_inner_products_preconditioned (Gould's recurrences, the generated kernels) equal the M-inner products z.Mz, z.Md, d.Md
+   of the iterates.  `cg_iter k` is the loop state after k continuing passes (proofs/L_C06_CGpc.v, built from the same
+   generated kernels); the last conjunct says it IS the state of the model's loop: running the solver with k + f passes
+   allowed is running the remaining f passes of cg_loop from that state. *)
+Theorem C06_cg_gould_recurrences : forall n (Hf Pf Mf : list R -> list R) D cg_tol cg_ratio (x g : list R),
+  (forall v, len n v -> len n (Hf v)) -> (forall v, len n v -> len n (Pf v)) ->
+  (forall a b, len n a -> len n b -> a ⋅ Hf b = Hf a ⋅ b) ->
+  (forall a b, len n a -> len n b -> a ⋅ Mf b = Mf a ⋅ b) ->
+  (forall v, len n v -> Mf (Pf v) = v) ->
+  (forall v, len n v -> 0 < v ⋅ v -> 0 < v ⋅ Mf v) ->
+  cg_tol <> 0 -> len n x -> len n g ->
+  forall k s, let tol2 := @cg_tol_squared R NumR cg_tol cg_ratio g in
+  ~ g ⋅ g < tol2 ->
+  cg_iter Hf Pf D tol2 k (cg_start Pf x g) = Some s ->
+  s_zz s = s_z s ⋅ Mf (s_z s) /\ s_zd s = s_z s ⋅ Mf (s_d s) /\ s_dd s = s_d s ⋅ Mf (s_d s) /\ s_zz s <= D * D /\
+  forall f, @solve_trust_region_minimization R NumR Hf Pf true D cg_tol cg_ratio (k + f) x g =
+            @cg_loop R NumR Hf Pf true D f k tol2 (rneg (Pf g)) (s_z s) (s_r s) (s_d s) (s_rPr s) (s_zz s) (s_zd s) (s_dd s).
+Proof. exact cg_gould_recurrences. Qed.
+(* formerly NOT PROVED (a) -- radius clause in the preconditioned inner product -- is closed by the two theorems above.
+   NOT PROVED: (b) the Cauchy clause when the solver returns before iterating (|g|^2 < cgTolSquared, 0 iterations, zero step tagged
    'interior'): there the zero step does NOT beat the Cauchy step unless g = 0 -- excluded by `cg_iters res <> 0`.
    (c) EquationSolverSubspace.trust_region_cg / ModelProblem: modelled (model/M_C06_CG.v trust_region_cg) and tied by the
-   correspondence, but only its tau kernel has a theorem (C06_tau_on_boundary_subspace). *)
+   correspondence, but only its tau kernel has a theorem (C06_tau_on_boundary_subspace).
+   (d) the theorems are over exact reals: in binary64 CG loses conjugacy, so the recurrences drift from the M-inner products
+   over many passes; the harness measures that drift on the implementation (stream `gould`) against a stated tolerance. *)
 
 (* dogleg_step: on the path origin -> Cauchy point -> quasi-Newton point, inside the radius in the mat_mul norm *)
 Theorem C06_dogleg : forall n (M : list R -> list R) D,
@@ -118,11 +151,51 @@ Proof. exact treigen_zero_hessian_nan_binary64. Qed.
 Theorem C06_treigen_secular_stalls_binary64 :
   fst (@treigen_solve PrimFloat.float NumF 400 stall_sig [[F 1 0; F 0 0]; [F 0 0; F 1 0]] stall_b stall_Delta) = TOutOfFuel.
 Proof. exact treigen_secular_stalls_binary64. Qed.
-(* NOT PROVED: "treigen.solve returns a global minimiser" as one theorem about the model: the two theorems above and
-   C06_ms_sufficiency state what each branch must deliver in terms of an abstract symmetric operator A; deriving their
-   hypotheses from the `eigh` contract (orthonormal columns, A = V diag(sig) V^T) for the list-of-rows model needs matrix
-   algebra over lists that did not fit the budget.  The branches are checked per instance by the harness (optimality gap
-   against an independent reference and the radius), which is a test, not a proof.  Two defects remain open (F2b, F2c). *)
+(* treigen.solve returns a global minimiser: ONE theorem about the model (model/M_C06_Treigen.v at T := R) from the contract of
+   numpy's eigh -- sig ascending, V (a list of rows, square) orthogonal, A = V diag(sig) V^T; `transpose_n` is PROVED to be the
+   transpose (x.(V y) = (V^T x).y), so V^T V = I, V V^T = I and the decomposition are stated as operator identities.
+   For every fuel (cap on the passes of the secular `while`), whatever branch is taken:
+   interior: |p| < Delta and p minimises the model over the ball of radius Delta;
+   hard case: |p| = Delta and p minimises it up to 4 eps Delta^2, eps = 1e-12*mean|sig| (the code's shift of the lowest eigenvalue);
+   secular: | |p| - Delta | <= 1e-9 Delta and p minimises the model over the ball of its own radius |p|
+            (the Newton iterates on the secular equation stay on the side |p(lam)| >= Delta -- convexity of 1/(1+hy)^2 -- so the
+            returned multiplier is >= max(0, -sig_0) and More'-Sorensen applies);
+   out of fuel: nothing is claimed.  Guards: Delta > 0 and A <> 0 (mean|sig| > 0; A = 0 is the open finding F2b). *)
+Theorem C06_treigen_global_minimiser : forall k (A : list R -> list R) (sig : list R) (V : list (list R)) (b : list R),
+  let n := S k in let Vt := @transpose_n R NumR n V in
+  len n sig -> (forall row, In row V -> len n row) -> length V = n -> len n b ->
+  (forall y, len n y -> @matvec R NumR Vt (@matvec R NumR V y) = y) ->
+  (forall x, len n x -> @matvec R NumR V (@matvec R NumR Vt x) = x) ->
+  (forall x, len n x -> A x = @matvec R NumR V (@vmul R NumR sig (@matvec R NumR Vt x))) ->
+  (forall x, In x sig -> hd 0 sig <= x) ->
+  forall Delta, 0 < Delta -> 0 < @vmean_abs R NumR sig ->
+  forall fuel,
+  match @treigen_solve R NumR fuel sig V b Delta with
+  | (TInterior, p) => len n p /\ p ⋅ p < Delta * Delta /\
+                      forall s, len n s -> s ⋅ s <= Delta * Delta -> energyR A b p <= energyR A b s
+  | (THard, p) => len n p /\ p ⋅ p = Delta * Delta /\
+                  forall s, len n s -> s ⋅ s <= Delta * Delta ->
+                  energyR A b p <= energyR A b s + 4 * (1 / 1000000000000 * @vmean_abs R NumR sig) * (Delta * Delta)
+  | (TSecular _, p) => len n p /\ Rabs (sqrt (p ⋅ p) - Delta) <= 1 / 1000000000 * Delta /\
+                       forall s, len n s -> s ⋅ s <= p ⋅ p -> energyR A b p <= energyR A b s
+  | (TOutOfFuel, _) => True
+  end.
+Proof. exact treigen_minimiser. Qed.
+(* formerly NOT PROVED ("treigen.solve returns a global minimiser as one theorem from the eigh contract") is closed by the theorem above.
+   NOT PROVED: termination of the uncapped secular `while` (over R the Newton iterates increase monotonically and stay below the
+   root, convergence itself is not proved; in binary64 the loop can stall -- finding F2c, witness above); the eigh contract itself
+   (numpy is an oracle: the harness measures V^T V = I, A = V diag(sig) V^T and the ordering on the logged output of every run);
+   binary64 rounding (the theorem is over R; the harness compares per branch within stated tolerances).  Two defects remain open (F2b, F2c). *)
+Example C06_treigen_nonvacuous :
+  let sig := [2] in let V := [[1]] in let b := [4] in
+  let A := fun x : list R => @matvec R NumR V (@vmul R NumR sig (@matvec R NumR (@transpose_n R NumR 1 V) x)) in
+  len 1 sig /\ (forall row, In row V -> len 1 row) /\ length V = 1%nat /\ len 1 b /\
+  (forall y, len 1 y -> @matvec R NumR (@transpose_n R NumR 1 V) (@matvec R NumR V y) = y) /\
+  (forall x, len 1 x -> @matvec R NumR V (@matvec R NumR (@transpose_n R NumR 1 V) x) = x) /\
+  (forall x, len 1 x -> A x = @matvec R NumR V (@vmul R NumR sig (@matvec R NumR (@transpose_n R NumR 1 V) x))) /\
+  (forall x, In x sig -> hd 0 sig <= x) /\ 0 < @vmean_abs R NumR sig /\
+  @treigen_solve R NumR 1 sig V b 1 = (TSecular 1, [-1]).
+Proof. exact treigen_nonvacuous. Qed.
 
 Example C06_nonvacuous : forall n,
   let Hf := rscale 2 in let Pf := fun v : list R => v in
@@ -132,8 +205,31 @@ Example C06_nonvacuous : forall n,
   (forall v, len n v -> 0 < v ⋅ v -> 0 < v ⋅ Pf v) /\ len 2 [1; 0].
 Proof. exact cg_hypotheses_satisfiable. Qed.
 
+Example C06_cg_preconditioned_nonvacuous : forall n,
+  let Hf := rscale 2 in let Pf := rscale 2 in let Mf := rscale (/ 2) in
+  (forall v, len n v -> len n (Hf v)) /\ (forall v, len n v -> len n (Pf v)) /\
+  (forall a b, len n a -> len n b -> a ⋅ Hf b = Hf a ⋅ b) /\
+  (forall a b, len n a -> len n b -> a ⋅ Mf b = Mf a ⋅ b) /\
+  (forall v, len n v -> Mf (Pf v) = v) /\
+  (forall v, len n v -> 0 < v ⋅ v -> 0 < v ⋅ Mf v) /\ len 2 [1; 0].
+Proof. exact cgpc_hypotheses_satisfiable. Qed.
+(* H = diag(1,2), precond = M = I, g = (1,1), Delta = 10: the hypotheses hold, the loop reaches its second pass and the
+   recurrence value zd there is non-zero *)
+Example C06_cg_gould_nonvacuous :
+  let Hf := @vmul R NumR [1; 2] in let Pf := fun v : list R => v in let Mf := fun v : list R => v in
+  (forall v, len 2 v -> len 2 (Hf v)) /\ (forall v, len 2 v -> len 2 (Pf v)) /\
+  (forall a b, len 2 a -> len 2 b -> a ⋅ Hf b = Hf a ⋅ b) /\
+  (forall a b, len 2 a -> len 2 b -> a ⋅ Mf b = Mf a ⋅ b) /\
+  (forall v, len 2 v -> Mf (Pf v) = v) /\
+  (forall v, len 2 v -> 0 < v ⋅ v -> 0 < v ⋅ Mf v) /\
+  ~ [1; 1] ⋅ [1; 1] < @cg_tol_squared R NumR (/ 10) 0 [1; 1] /\
+  exists s, cg_iter Hf Pf 10 (@cg_tol_squared R NumR (/ 10) 0 [1; 1]) 1 (cg_start Pf [0; 0] [1; 1]) = Some s /\ s_zd s <> 0.
+Proof. exact gould_nonvacuous. Qed.
+
 Print Assumptions C06_tau_on_boundary.
 Print Assumptions C06_cg_step_properties.
+Print Assumptions C06_cg_gould_recurrences.
 Print Assumptions C06_dogleg.
 Print Assumptions C06_ms_sufficiency.
 Print Assumptions C06_treigen_hard_case_near_optimal.
+Print Assumptions C06_treigen_global_minimiser.
